@@ -2,6 +2,7 @@ import LhasaV.Spec.Lzhuf
 import LhasaV.Lemmas.Lh1Safe
 import LhasaV.Lemmas.Lh1Mirror
 import LhasaV.Model.Wrap
+import LhasaV.Lemmas.GenInit
 /-!
 # C02 — the lh1 adaptive-Huffman decoder stays in lock-step with the LZHUF model
 
@@ -64,5 +65,14 @@ theorem lh1_decode_encode (cmds : List WCmd) (hv : ∀ c ∈ cmds, valid c = tru
           length := n, blockSize := b }).1.1
       = (expandWin 0x20 cmds).take (min ks.sum n) :=
   Lh1Mirror.lh1_reads cmds hv c n b ks hn
+
+/-- **Translator tie for the initial state**: what `lha_lh1_init` of the working tree builds on zeroed memory (dumped into
+`Gen/Decoders.lean` on every run) – the 256-entry offset lookup, the 64 offset lengths, the code→leaf map, the ring of spaces, the
+write position – is what the model's `init` builds, for every source; the offset tables are LZHUF's published `d_code` / `p_len`. -/
+theorem lh1_init_matches_source (src : Src) :
+    ∃ s, Lh1.init src = .ok s ∧ s.offsetLookup.toList = Gen.lh1InitOffsetLookup ∧ s.offsetLengths.toList = Gen.lh1InitOffsetLengths
+      ∧ (∀ c, c < 314 → s.leafNodes.getD c 0 = Gen.lh1InitLeafNodes.getD c 0)
+      ∧ s.ring = Array.replicate Gen.lh1RingCap 0x20 ∧ s.pos = Gen.lh1InitRingPos :=
+  GenInit.lh1_init_matches_source src
 
 end LhasaV.Props.C02
